@@ -30,7 +30,10 @@ macro_rules! opaque {
         impl Clone for $n { #[verifier::external_body] fn clone(&self) -> (r: Self) ensures r == *self { unimplemented!() } }
     )* } }
 }
-opaque!(Payload, DeliveryTag, Fields, Symbol, AmqpError, SessionStopReason, ConnectionStopReason, AttachRest);
+opaque!(Payload, DeliveryTag, Fields, Symbol, AmqpError, ConnectionStopReason, AttachRest);
+
+//@@ type file=fe2o3-amqp/src/link/error.rs kind=enum name=SessionStopReason clone
+//@@ end
 
 #[verifier::external_body]
 pub struct DeliveryState { _p: u8 }
@@ -155,48 +158,86 @@ impl<T> ChanSender<T> {
 pub fn connection_stop_reason_or_closed(cell: &OnceCell<ConnectionStopReason>) -> (r: ConnectionStopReason) { unimplemented!() }
 
 pub enum RelayCall {
-    Disposition { role: Role, settled: bool, state: Option<DeliveryState>, tag: DeliveryTag, echo: bool },
+    Disposition { role: Role, settled: bool, state: Option<DeliveryState>, tag: DeliveryTag },
     Flow { flow: LinkFlow },
     Transfer { transfer: Transfer, payload: Payload },
     Frame,
 }
 
-pub struct LinkRelay<O> {
-    pub output_handle: O,
-    pub is_sender: bool,
-    pub receiver_settle_mode: ReceiverSettleMode,
-    pub calls: Ghost<Seq<RelayCall>>,
+pub enum LinkRelay<O> {
+    Sender { output_handle: O, receiver_settle_mode: ReceiverSettleMode, calls: Ghost<Seq<RelayCall>> },
+    Receiver { output_handle: O, receiver_settle_mode: ReceiverSettleMode, more: bool, calls: Ghost<Seq<RelayCall>> },
 }
 
-pub enum LinkRelayError { UnattachedHandle, TransferFrameToSender }
+impl<O> LinkRelay<O> {
+    pub open spec fn calls(self) -> Seq<RelayCall> {
+        match self { LinkRelay::Sender { calls, .. } => calls@, LinkRelay::Receiver { calls, .. } => calls@ }
+    }
+    pub open spec fn oh(self) -> O {
+        match self { LinkRelay::Sender { output_handle, .. } => output_handle, LinkRelay::Receiver { output_handle, .. } => output_handle }
+    }
+    pub open spec fn rsm(self) -> ReceiverSettleMode {
+        match self { LinkRelay::Sender { receiver_settle_mode, .. } => receiver_settle_mode, LinkRelay::Receiver { receiver_settle_mode, .. } => receiver_settle_mode }
+    }
+    pub open spec fn with_calls(self, c: Seq<RelayCall>) -> Self {
+        match self {
+            LinkRelay::Sender { output_handle, receiver_settle_mode, calls } => LinkRelay::Sender { output_handle, receiver_settle_mode, calls: Ghost(c) },
+            LinkRelay::Receiver { output_handle, receiver_settle_mode, more, calls } => LinkRelay::Receiver { output_handle, receiver_settle_mode, more, calls: Ghost(c) },
+        }
+    }
+}
+
+pub open spec fn relay_with_handle(r: LinkRelay<()>, h: OutputHandle) -> LinkRelay<OutputHandle> {
+    match r {
+        LinkRelay::Sender { output_handle, receiver_settle_mode, calls } => LinkRelay::Sender { output_handle: h, receiver_settle_mode, calls },
+        LinkRelay::Receiver { output_handle, receiver_settle_mode, more, calls } => LinkRelay::Receiver { output_handle: h, receiver_settle_mode, more, calls },
+    }
+}
+impl LinkRelay<()> {
+    #[verifier::external_body]
+    pub fn with_output_handle(self, output_handle: OutputHandle) -> (r: LinkRelay<OutputHandle>)
+        ensures r == relay_with_handle(self, output_handle),
+    { unimplemented!() }
+}
+pub enum LinkFrame { Attach(Attach), Detach(Detach), Other }
 
 impl LinkRelay<OutputHandle> {
     #[verifier::external_body]
+    pub fn send(&mut self, frame: LinkFrame) -> (r: Result<(), ChanSendError>)
+        ensures final(self).oh() == old(self).oh(), final(self).rsm() == old(self).rsm(), (*final(self) is Sender) == (*old(self) is Sender),
+    { unimplemented!() }
+
+    #[verifier::external_body]
+    pub fn on_incoming_detach(&mut self, detach: Detach) -> (r: Result<(), ChanSendError>)
+        ensures final(self).oh() == old(self).oh(),
+    { unimplemented!() }
+
+    #[verifier::external_body]
     pub fn on_incoming_disposition(&mut self, role: Role, settled: bool, state: Option<DeliveryState>, delivery_tag: DeliveryTag) -> (echo: bool)
         ensures
-            final(self).calls@ == old(self).calls@.push(RelayCall::Disposition { role, settled, state, tag: delivery_tag, echo }),
-            final(self).output_handle == old(self).output_handle,
-            final(self).is_sender == old(self).is_sender,
-            final(self).receiver_settle_mode == old(self).receiver_settle_mode,
+            *final(self) == relay_after(*old(self), RelayCall::Disposition { role, settled, state, tag: delivery_tag }),
+            echo == relay_echo(*old(self), settled),   // contract of the real LinkRelay::on_incoming_disposition, proved in unit LINKRELAY
     { unimplemented!() }
 
     #[verifier::external_body]
     pub fn on_incoming_flow(&mut self, flow: LinkFlow) -> (r: Result<Option<LinkFlow>, LinkRelayError>)
-        ensures
-            final(self).calls@ == old(self).calls@.push(RelayCall::Flow { flow }),
-            final(self).output_handle == old(self).output_handle,
-            final(self).is_sender == old(self).is_sender,
-            final(self).receiver_settle_mode == old(self).receiver_settle_mode,
+        ensures *final(self) == relay_after(*old(self), RelayCall::Flow { flow }),
     { unimplemented!() }
 
     #[verifier::external_body]
     pub fn on_incoming_transfer(&mut self, transfer: Transfer, payload: Payload) -> (r: Result<Option<(DeliveryNumber, DeliveryTag)>, LinkRelayError>)
-        ensures
-            final(self).calls@ == old(self).calls@.push(RelayCall::Transfer { transfer, payload }),
-            final(self).output_handle == old(self).output_handle,
-            final(self).is_sender == old(self).is_sender,
-            final(self).receiver_settle_mode == old(self).receiver_settle_mode,
+        ensures *final(self) == relay_after(*old(self), RelayCall::Transfer { transfer, payload }),
     { unimplemented!() }
+}
+
+pub enum LinkRelayError { UnattachedHandle, TransferFrameToSender }
+
+pub open spec fn relay_after(r: LinkRelay<OutputHandle>, c: RelayCall) -> LinkRelay<OutputHandle> {
+    r.with_calls(r.calls().push(c))
+}
+/// echo requested by a link for a disposition: only a sender whose peer settles second answers a non-settled disposition
+pub open spec fn relay_echo(r: LinkRelay<OutputHandle>, settled: bool) -> bool {
+    r is Sender && !settled && r.rsm() == ReceiverSettleMode::Second
 }
 
 //@@ type file=fe2o3-amqp/src/session/error.rs kind=enum name=SessionInnerError
@@ -276,6 +317,77 @@ pub proof fn lemma_fc_run_counts(s: FC, ch: OutgoingChannel, q: Seq<(InputHandle
     }
 }
 
+pub type Links = Map<InputHandle, LinkRelay<OutputHandle>>;
+pub type DTMap = Map<(Role, u32), (InputHandle, DeliveryTag)>;
+
+/// disposition-routing view: links, delivery-id table, ids for which the link asked for a settling echo
+pub struct DS { pub links: Links, pub dt: DTMap, pub echo_ids: Seq<u32> }
+
+pub open spec fn disp_step(s: DS, role: Role, settled: bool, state: Option<DeliveryState>, id: u32) -> DS {
+    let key = (role, id);
+    if s.dt.contains_key(key) {
+        let h = s.dt[key].0;
+        let tag = s.dt[key].1;
+        let dt2 = if settled { s.dt.remove(key) } else { s.dt };
+        if s.links.contains_key(h) {
+            DS {
+                links: s.links.insert(h, relay_after(s.links[h], RelayCall::Disposition { role, settled, state, tag })),
+                dt: dt2,
+                echo_ids: if relay_echo(s.links[h], settled) { s.echo_ids.push(id) } else { s.echo_ids },
+            }
+        } else { DS { dt: dt2, ..s } }
+    } else { s }
+}
+
+pub open spec fn disp_run(s: DS, role: Role, settled: bool, state: Option<DeliveryState>, first: u32, n: nat) -> DS
+    decreases n
+{
+    if n == 0 { s } else { disp_step(disp_run(s, role, settled, state, first, (n - 1) as nat), role, settled, state, (first + n - 1) as u32) }
+}
+
+pub open spec fn range_count(first: u32, last: u32) -> nat {
+    if last >= first { (last - first + 1) as nat } else { 0 }
+}
+
+/// run boundaries of the echo list: 0, the chunk indices, len
+pub open spec fn run_bound(ci: Seq<usize>, len: int, k: int) -> int {
+    if k <= 0 { 0 } else if k <= ci.len() { ci[k - 1] as int } else { len }
+}
+
+pub open spec fn strictly_ascending(ids: Seq<u32>) -> bool {
+    forall|i: int, j: int| 0 <= i < j < ids.len() ==> ids[i] < ids[j]
+}
+
+/// ASSUMED contract of session::consecutive_chunk_indices (iterator-adapter chain, outside the Verus subset;
+/// checked bounded on the real function by the Kani harness `cci_contract`): ascending positions p in 1..len
+/// such that ids[p] is not the successor of ids[p-1] -- exactly those.
+pub uninterp spec fn chunk_positions(ids: Seq<u32>) -> Seq<usize>;
+pub open spec fn chunk_positions_ok(ci: Seq<usize>, ids: Seq<u32>) -> bool {
+    &&& (forall|k: int| 0 <= k < ci.len() ==> 0 < #[trigger] ci[k] < ids.len())
+    &&& (forall|i: int, j: int| 0 <= i < j < ci.len() ==> ci[i] < ci[j])
+    &&& (forall|p: int| 0 < p < ids.len() ==> (ci.contains(p as usize) <==> (#[trigger] ids[p]) - ids[p - 1] != 1))
+}
+#[verifier::external_body]
+pub fn consecutive_chunk_indices(delivery_ids: &[u32]) -> (r: Vec<usize>)
+    requires strictly_ascending(delivery_ids@),   // is_consecutive computes right - left
+    ensures
+        r@ == chunk_positions(delivery_ids@),
+        chunk_positions_ok(r@, delivery_ids@),
+{ unimplemented!() }
+
+pub proof fn lemma_disp_run_keeps_echo_sorted(s: DS, role: Role, settled: bool, state: Option<DeliveryState>, first: u32, n: nat)
+    requires s.echo_ids.len() == 0, first + n <= 0x1_0000_0000,
+    ensures
+        strictly_ascending(disp_run(s, role, settled, state, first, n).echo_ids),
+        forall|i: int| 0 <= i < disp_run(s, role, settled, state, first, n).echo_ids.len() ==>
+            first <= #[trigger] disp_run(s, role, settled, state, first, n).echo_ids[i] < first + n,
+    decreases n,
+{
+    if n > 0 {
+        lemma_disp_run_keeps_echo_sorted(s, role, settled, state, first, (n - 1) as nat);
+    }
+}
+
 pub proof fn lemma_fc_run_out(s: FC, ch: OutgoingChannel, q: Seq<(InputHandle, Transfer, Payload)>)
     ensures
         fc_run(s, ch, q).out =~= s.out + fc_run(FC { out: Seq::empty(), ..s }, ch, q).out,
@@ -297,6 +409,13 @@ impl Session {
     /// every field except the flow-control triple (next_outgoing_id, remote_incoming_window, delivery_tag_by_id)
     /// and the hold-back buffer is unchanged
     pub open spec fn same_outside_fc(&self, o: &Session) -> bool {
+        &&& self.same_outside_fc_core(o)
+        &&& self.link_name_by_output_handle == o.link_name_by_output_handle
+        &&& self.link_by_name == o.link_by_name
+        &&& self.link_by_input_handle == o.link_by_input_handle
+    }
+
+    pub open spec fn same_outside_fc_core(&self, o: &Session) -> bool {
         &&& self.outgoing_channel == o.outgoing_channel
         &&& self.session_stop_reason == o.session_stop_reason
         &&& self.connection_stop_reason == o.connection_stop_reason
@@ -312,9 +431,6 @@ impl Session {
         &&& self.offered_capabilities == o.offered_capabilities
         &&& self.desired_capabilities == o.desired_capabilities
         &&& self.properties == o.properties
-        &&& self.link_name_by_output_handle == o.link_name_by_output_handle
-        &&& self.link_by_name == o.link_by_name
-        &&& self.link_by_input_handle == o.link_by_input_handle
     }
 
 //@@ fn file=fe2o3-amqp/src/session/mod.rs impl=`impl Session` name=on_outgoing_transfer_inner
@@ -504,10 +620,7 @@ impl Session {
     pub open spec fn routed(old_m: Map<InputHandle, LinkRelay<OutputHandle>>, new_m: Map<InputHandle, LinkRelay<OutputHandle>>, h: InputHandle, c: RelayCall) -> bool {
         &&& old_m.contains_key(h)
         &&& new_m.dom() =~= old_m.dom()
-        &&& new_m[h].calls@ == old_m[h].calls@.push(c)
-        &&& new_m[h].output_handle == old_m[h].output_handle
-        &&& new_m[h].is_sender == old_m[h].is_sender
-        &&& new_m[h].receiver_settle_mode == old_m[h].receiver_settle_mode
+        &&& new_m[h] == relay_after(old_m[h], c)
         &&& forall|k: InputHandle| k != h && old_m.contains_key(k) ==> #[trigger] new_m[k] == old_m[k]
     }
 
@@ -720,6 +833,207 @@ impl Session {
         }),
 //@@ end
 
+
+    pub open spec fn ds(&self) -> DS {
+        DS { links: self.link_by_input_handle@, dt: self.delivery_tag_by_id@, echo_ids: Seq::empty() }
+    }
+
+    pub open spec fn same_outside_disp(&self, o: &Session) -> bool {
+        &&& self.same_outside_fc_core(o)
+        &&& self.next_outgoing_id == o.next_outgoing_id
+        &&& self.remote_incoming_window == o.remote_incoming_window
+        &&& self.remote_incoming_window_exhausted_buffer == o.remote_incoming_window_exhausted_buffer
+        &&& self.link_name_by_output_handle == o.link_name_by_output_handle
+        &&& self.link_by_name == o.link_by_name
+    }
+
+//@@ fn file=fe2o3-amqp/src/session/mod.rs impl=`impl endpoint::Session for Session` name=on_incoming_disposition
+//@@ subst `&delivery_ids[..]` => `delivery_ids.as_slice()` rule=R22
+//@@ subst `let mut delivery_ids = Vec::new();` => `let mut delivery_ids: Vec<u32> = Vec::new();` rule=R5
+//@@ subst `let mut dispositions = Vec::with_capacity(` => `let mut dispositions: Vec<Disposition> = Vec::with_capacity(` rule=R5
+//@@ spec
+    ensures
+        r is Ok,                                                                                     // [C15.disposition.total] any disposition (unknown ids, huge ranges, last < first) is handled without error or panic
+        final(self).same_outside_disp(old(self)),                                                    // [C02.disposition.frame]
+        ({
+            let last = if disposition.last is Some { disposition.last->Some_0 } else { disposition.first };
+            let run = disp_run(old(self).ds(), disposition.role, disposition.settled, disposition.state, disposition.first, range_count(disposition.first, last));
+            &&& final(self).link_by_input_handle@ == run.links                                      // [C02.disposition.route] for every id in first..=last that is registered, exactly the link that owns it is told, with that delivery's own tag and the frame's state/settled flag -- no other link, no other tag
+            &&& final(self).delivery_tag_by_id@ == run.dt                                           // [C02.disposition.forget] settled => every id in the range is forgotten; not settled => table unchanged; ids outside the range untouched
+            &&& disposition.settled ==> r->Ok_0 is None                                              // [C02.disposition.settled-no-echo]
+            &&& !disposition.settled ==> r->Ok_0 is Some && ({
+                    let ds = r->Ok_0->Some_0@;
+                    let ids = run.echo_ids;
+                    let ci = chunk_positions(ids);
+                    &&& chunk_positions_ok(ci, ids)
+                    &&& ds.len() == (if ids.len() > 0 { ci.len() + 1 } else { 0 })            // [C02.echo.last-run] the last (or only) run of ids is echoed too
+                    &&& (forall|k: int| 0 <= k < ds.len() ==> {
+                            &&& (#[trigger] ds[k]).first == ids[run_bound(ci, ids.len() as int, k)]           // [C02.echo.cover] run k of the echo list is answered by one disposition first..last
+                            &&& ds[k].last == Some(ids[run_bound(ci, ids.len() as int, k + 1) - 1])
+                            &&& ds[k].settled && ds[k].role == Role::Sender && !ds[k].batchable               // [C02.echo.settled] the answer is a settled disposition from the sender
+                            &&& ds[k].state == disposition.state                                              // [C02.echo.state] carrying the same outcome
+                        })
+                })
+        }),
+//@@ entry
+        let ghost mut steps: nat = 0;
+//@@ loopstart 0
+        proof { steps = steps + 1; }
+//@@ loopstart 1
+        proof { steps = steps + 1; }
+//@@ loop 0
+        invariant
+            steps <= old(self).delivery_tag_by_id@.len() + 1,   // [C15.disposition.cost] work proportional to what the session holds, not to the peer-chosen id range
+            __ri_end0 == last,
+            !__ri_done0 ==> first <= __ri_cur0 <= last,
+            __ri_done0 ==> first > last || __ri_cur0 == last,
+            disposition.settled,
+            first == disposition.first,
+            last == (if disposition.last is Some { disposition.last->Some_0 } else { disposition.first }),
+            self.same_outside_disp(old(self)),
+            ({
+                let n: nat = if __ri_done0 { range_count(first, last) } else { (__ri_cur0 - first) as nat };
+                let run = disp_run(old(self).ds(), disposition.role, true, disposition.state, first, n);
+                self.link_by_input_handle@ == run.links && self.delivery_tag_by_id@ == run.dt
+            }),
+        decreases (if __ri_done0 { 0int } else { __ri_end0 - __ri_cur0 + 1 }),
+//@@ loop 1
+        invariant
+            steps <= old(self).delivery_tag_by_id@.len() + 1,   // [C15.disposition.cost] work proportional to what the session holds, not to the peer-chosen id range
+            __ri_end1 == last,
+            !__ri_done1 ==> first <= __ri_cur1 <= last,
+            __ri_done1 ==> first > last || __ri_cur1 == last,
+            !disposition.settled,
+            first == disposition.first,
+            last == (if disposition.last is Some { disposition.last->Some_0 } else { disposition.first }),
+            self.same_outside_disp(old(self)),
+            strictly_ascending(delivery_ids@),
+            ({
+                let n: nat = if __ri_done1 { range_count(first, last) } else { (__ri_cur1 - first) as nat };
+                let run = disp_run(old(self).ds(), disposition.role, false, disposition.state, first, n);
+                &&& self.link_by_input_handle@ == run.links && self.delivery_tag_by_id@ == run.dt
+                &&& delivery_ids@ == run.echo_ids
+                &&& forall|i: int| 0 <= i < delivery_ids@.len() ==> first <= #[trigger] delivery_ids@[i] < first + n
+            }),
+        decreases (if __ri_done1 { 0int } else { __ri_end1 - __ri_cur1 + 1 }),
+//@@ loop 2
+        invariant
+            __it2.seq() == chunk_inds@,
+            chunk_inds@ == chunk_positions(delivery_ids@),
+            chunk_positions_ok(chunk_inds@, delivery_ids@),
+            prev_ind == run_bound(chunk_inds@, delivery_ids@.len() as int, __it2.index@),
+            dispositions@.len() == __it2.index@,
+            forall|k: int| 0 <= k < dispositions@.len() ==> {
+                &&& (#[trigger] dispositions@[k]).first == delivery_ids@[run_bound(chunk_inds@, delivery_ids@.len() as int, k)]
+                &&& dispositions@[k].last == Some(delivery_ids@[run_bound(chunk_inds@, delivery_ids@.len() as int, k + 1) - 1])
+                &&& dispositions@[k].settled && dispositions@[k].role == Role::Sender && !dispositions@[k].batchable
+                &&& dispositions@[k].state == disposition.state
+            },
+//@@ end
+
+    /// C11 invariant: output handles <-> link names are in bijection where defined
+    pub open spec fn names_consistent(&self) -> bool {
+        &&& forall|k: usize| #![auto] self.link_name_by_output_handle@.contains_key(k) ==> self.link_by_name@.contains_key(self.link_name_by_output_handle@[k])
+        &&& forall|k1: usize, k2: usize| #![auto] self.link_name_by_output_handle@.contains_key(k1) && self.link_name_by_output_handle@.contains_key(k2) && k1 != k2
+                ==> self.link_name_by_output_handle@[k1] != self.link_name_by_output_handle@[k2]
+    }
+
+//@@ fn file=fe2o3-amqp/src/session/mod.rs impl=`impl endpoint::Session for Session` name=allocate_link
+//@@ subst `.map(|val| val.with_output_handle(handle.clone()))` => `.map(|val: LinkRelay<()>| -> (o: LinkRelay<OutputHandle>) ensures o == relay_with_handle(val, handle) { val.with_output_handle(handle.clone()) })` rule=R18
+//@@ spec
+    requires
+        old(self).link_name_by_output_handle.spec_vacant_key() < 0x1_0000_0000,   // ASSUMED: fewer than 2^32 link handles are live (the handle is `key as u32`)
+    ensures
+        !(old(self).local_state is Mapped) ==> r is Err && *final(self) == *old(self),                  // [C13.link.attach-only-when-mapped] no link can be allocated (so no attach sent) unless the session is mapped
+        old(self).local_state is Mapped && old(self).link_by_name@.contains_key(link_name)
+            ==> r == Err::<OutputHandle, AllocLinkError>(AllocLinkError::DuplicatedLinkName) && *final(self) == *old(self),   // [C11.name.unique] a link name is attached at most once per session
+        old(self).local_state is Mapped && !old(self).link_by_name@.contains_key(link_name) ==> r is Ok && ({
+            let h = r->Ok_0.0 as usize;
+            &&& !old(self).link_name_by_output_handle@.contains_key(h)                                  // [C11.handle.fresh] the handle handed out is not held by any live link
+            &&& final(self).link_name_by_output_handle@ == old(self).link_name_by_output_handle@.insert(h, link_name)
+            &&& final(self).link_by_name@ == old(self).link_by_name@.insert(link_name,
+                    match link_relay { Some(v) => Some(relay_with_handle(v, r->Ok_0)), None => None })
+            &&& final(self).link_by_input_handle == old(self).link_by_input_handle
+            &&& final(self).delivery_tag_by_id == old(self).delivery_tag_by_id
+            &&& final(self).same_outside_fc_core(old(self))
+            &&& final(self).next_outgoing_id == old(self).next_outgoing_id && final(self).remote_incoming_window == old(self).remote_incoming_window
+            &&& final(self).remote_incoming_window_exhausted_buffer == old(self).remote_incoming_window_exhausted_buffer
+            &&& (old(self).names_consistent() ==> final(self).names_consistent())                       // [C11.handle.bijection] handle <-> name stays one-to-one
+        }),
+//@@ end
+
+//@@ fn file=fe2o3-amqp/src/session/mod.rs impl=`impl endpoint::Session for Session` name=deallocate_link
+//@@ spec
+    ensures
+        final(self).link_name_by_output_handle@ == old(self).link_name_by_output_handle@.remove(output_handle.0 as usize),   // [C11.handle.release] the handle becomes free exactly here
+        old(self).link_name_by_output_handle@.contains_key(output_handle.0 as usize)
+            ==> final(self).link_by_name@ == old(self).link_by_name@.remove(old(self).link_name_by_output_handle@[output_handle.0 as usize]),   // [C11.name.release] ... together with its name, and no other name
+        !old(self).link_name_by_output_handle@.contains_key(output_handle.0 as usize) ==> final(self).link_by_name@ == old(self).link_by_name@,
+        final(self).link_by_input_handle == old(self).link_by_input_handle,
+        final(self).delivery_tag_by_id == old(self).delivery_tag_by_id,
+        final(self).same_outside_fc_core(old(self)),
+        final(self).next_outgoing_id == old(self).next_outgoing_id && final(self).remote_incoming_window == old(self).remote_incoming_window,
+        final(self).remote_incoming_window_exhausted_buffer == old(self).remote_incoming_window_exhausted_buffer,
+//@@ end
+
+//@@ fn file=fe2o3-amqp/src/session/mod.rs impl=`impl endpoint::Session for Session` name=on_outgoing_detach
+//@@ subst `detach.handle.clone().into()` => `handle_to_output(detach.handle.clone())` rule=R16
+//@@ spec
+    ensures
+        r == (SessionFrame { channel: old(self).outgoing_channel.0, body: SessionFrameBody::Detach(detach) }),   // [C13.link.detach-frame]
+        final(self).link_name_by_output_handle@ == old(self).link_name_by_output_handle@.remove(detach.handle.0 as usize),   // [C13.link.handle-released-on-detach] the output handle is released exactly when the detach is sent
+        final(self).link_by_input_handle == old(self).link_by_input_handle,
+        final(self).same_outside_fc_core(old(self)),
+//@@ end
+
+//@@ fn file=fe2o3-amqp/src/session/mod.rs impl=`impl endpoint::Session for Session` name=on_incoming_detach
+//@@ subst `InputHandle::from(` => `handle_to_input(` rule=R16
+//@@ spec
+    ensures
+        final(self).link_by_input_handle@ == old(self).link_by_input_handle@.remove(InputHandle(detach.handle.0)),   // [C11.route.detach-unmaps] the peer's handle is unmapped (may be reused by a later attach), no other link touched
+        old(self).link_by_input_handle@.contains_key(InputHandle(detach.handle.0)) ==> r is Ok,                   // [C13.link.peer-detach-not-fatal] a detach for an attached link never tears the session down, even if the link endpoint is gone
+        !old(self).link_by_input_handle@.contains_key(InputHandle(detach.handle.0))
+            ==> r == Err::<(), SessionInnerError>(SessionInnerError::UnattachedHandle),                           // [C15.detach.unattached]
+        final(self).delivery_tag_by_id == old(self).delivery_tag_by_id,
+        final(self).link_by_name == old(self).link_by_name,
+        final(self).link_name_by_output_handle == old(self).link_name_by_output_handle,
+        final(self).same_outside_fc_core(old(self)),
+//@@ end
+
+//@@ fn file=fe2o3-amqp/src/session/mod.rs impl=`impl endpoint::Session for Session` name=on_incoming_attach
+//@@ subst `InputHandle::from(` => `handle_to_input(` rule=R16
+//@@ subst `|_v0|` => `|_v0: ChanSendError|` rule=R5
+//@@ spec
+    ensures
+        !old(self).link_by_name@.contains_key(attach.name)
+            ==> r == Err::<(), SessionInnerError>(SessionInnerError::RemoteAttachingLinkNameNotFound)
+                && final(self).link_by_name@ == old(self).link_by_name@ && final(self).link_by_input_handle == old(self).link_by_input_handle,   // [C15.attach.unknown-name] an attach for a name never allocated is an error and maps nothing
+        old(self).link_by_name@.contains_key(attach.name) && old(self).link_by_name@[attach.name] is None
+            ==> r == Err::<(), SessionInnerError>(SessionInnerError::HandleInUse)
+                && final(self).link_by_input_handle == old(self).link_by_input_handle,                 // [C11.name.second-attach-refused] a second attach for a name already attached is refused and reaches no link
+        old(self).link_by_name@.contains_key(attach.name) && old(self).link_by_name@[attach.name] is Some ==> ({
+            let relay0 = old(self).link_by_name@[attach.name]->Some_0;
+            &&& final(self).link_by_name@ == old(self).link_by_name@.insert(attach.name, None)          // [C11.name.attached-once] the pending relay is taken: the name cannot be attached again
+            &&& r is Ok ==> final(self).link_by_input_handle@.dom() =~= old(self).link_by_input_handle@.dom().insert(InputHandle(attach.handle.0))
+                    && final(self).link_by_input_handle@[InputHandle(attach.handle.0)].oh() == relay0.oh()
+                    && (relay0 is Sender ==> final(self).link_by_input_handle@[InputHandle(attach.handle.0)].rsm() == attach.rcv_settle_mode)   // [C02.attach.rcv-settle-mode] the sender learns the receiver's settle mode from the attach   // [C11.route.attach-maps] the peer's handle now designates exactly this link
+                    && (forall|k: InputHandle| k != InputHandle(attach.handle.0) && old(self).link_by_input_handle@.contains_key(k) ==> #[trigger] final(self).link_by_input_handle@[k] == old(self).link_by_input_handle@[k])
+            &&& r is Err ==> final(self).link_by_input_handle == old(self).link_by_input_handle
+        }),
+        final(self).delivery_tag_by_id == old(self).delivery_tag_by_id,
+        final(self).link_name_by_output_handle == old(self).link_name_by_output_handle,
+        final(self).same_outside_fc_core(old(self)),
+//@@ end
+
+//@@ fn file=fe2o3-amqp/src/session/mod.rs impl=`impl endpoint::Session for Session` name=on_outgoing_disposition
+//@@ subst `disposition .state .as_ref() .map(|s| s.is_terminal()) .unwrap_or(false)` => `(match disposition.state.as_ref() { Some(s) => s.is_terminal(), None => false })` rule=R19
+//@@ spec
+    requires
+        disposition.last is Some && disposition.last->Some_0 >= disposition.first ==> disposition.last->Some_0 - disposition.first < u32::MAX,   // ASSUMED of the local link: a disposition never spans all 2^32 ids
+    ensures
+        r == Ok::<SessionFrame, SessionInnerError>(SessionFrame { channel: old(self).outgoing_channel.0, body: SessionFrameBody::Disposition(disposition) }),   // [C02.outgoing-disposition.passthrough] the link's disposition is sent unchanged
+        *final(self) == (Session { remote_outgoing_window: final(self).remote_outgoing_window, ..*old(self) }),
+//@@ end
 }
 
 //@@ fn file=fe2o3-amqp/src/session/mod.rs name=num_messages_settled_by_disposition
